@@ -112,6 +112,21 @@ pub fn cases(prop: &str, seed: u64, tier: &str) -> Vec<String> {
         }
         "C06" | "C13P" => {
             let b = budget(tier, 3000, 200000);
+            {
+                // bounded-exhaustive: all strings up to length 7 over a 9-symbol alphabet (digest per block);
+                // quick tier: a seeded sample of blocks
+                let total = crate::run::sweep_total(9, 7);
+                let blocks = (total + crate::run::SWEEP_BLOCK - 1) / crate::run::SWEEP_BLOCK;
+                if b.thorough {
+                    for blk in 0..blocks {
+                        out.push(format!("E6 {}", blk));
+                    }
+                } else {
+                    for _ in 0..40 {
+                        out.push(format!("E6 {}", r.below(blocks as usize)));
+                    }
+                }
+            }
             for i in 0..b.mappings {
                 let bytes = match i % 5 {
                     0 => gen_mapping(&mut r, &WILD).into_bytes(),
@@ -733,6 +748,20 @@ pub fn cases_c05(seed: u64, tier: &str) -> Vec<String> {
             let file = format!("{}{}{}{}{}", l2, nl, line, nl, l3);
             out.push(format!("M {}", hex(file.as_bytes())));
             out.push(format!("I ={}", exp));
+        }
+    }
+    {
+        // bounded-exhaustive: all lines of at most 6 tokens over a 12-token alphabet
+        let total = crate::run::sweep_total(12, 6);
+        let blocks = (total + crate::run::SWEEP_BLOCK - 1) / crate::run::SWEEP_BLOCK;
+        if b.thorough {
+            for blk in 0..blocks {
+                out.push(format!("E5 {}", blk));
+            }
+        } else {
+            for _ in 0..40 {
+                out.push(format!("E5 {}", r.below(blocks as usize)));
+            }
         }
     }
     // every line of the real-world corpus
